@@ -1,4 +1,5 @@
 import ArcSwapModel.Inv.Own
+import ArcSwapModel.Inv.Ctl
 import ArcSwapModel.Props.C03
 import ArcSwapModel.Tie.ListNewHelping
 import ArcSwapModel.Tie.ListNewFast
@@ -112,12 +113,46 @@ theorem C13_tags : Consts.handoverAlign &&& Consts.tagMask = 0 ∧ Consts.genSte
   have := Consts.tags_ok
   exact ⟨this.2.2.2.2.2.2.2.2.2.1, this.2.2.2.2.2.2.1, this.2.1, this.2.2.1, this.2.2.2.1, this.1⟩
 
+/-! ## The debug assertions on the control word (from the control-word invariant, `Inv/Ctl.lean`) -/
+
+/-- `debug_assert_eq!(prev, IDLE, "Left control in wrong state")` in `helping::get_debt` and
+    `debug_assert_eq!(IDLE, self.control.load(..))` at the top of `help`: in every reachable state
+    without a fault, the control word of the node a thread owns is `IDLE` whenever that thread is
+    not inside its own fallback window — in particular right before it publishes a new generation,
+    and while it walks other nodes as a writer. -/
+theorem C13_own_control_idle {st : State} (h : Reachable st) (hf : st.sh.fault = none) (t n : Nat)
+    (hown : ownsT (st.th t) = some n) (hw : (st.th t).op.win = none) : (st.sh.nodes n).control = .idle :=
+  control_idle_outside (CtlInv.reachable h hf) (OwnInv.reachable h) t n hown hw
+
+/-- the same, at the very step: a thread about to swap its generation in (`f2`) finds `IDLE`, so
+    that step raises no debug assertion -/
+theorem C13_get_debt_assert {st : State} (h : Reachable st) (hf : st.sh.fault = none) (t n g : Nat)
+    (hlp : (st.th t).op.lp? = some (.f2 g)) (hn : (st.th t).loc.node = some n) :
+    (st.sh.nodes n).control = .idle := by
+  refine C13_own_control_idle h hf t n ?_ ?_
+  · rw [ownsT_of_lp _ _ hlp]; exact hn
+  · rw [OpSt.win_lp, hlp]; rfl
+
+/-- `confirm`: "control is neither our generation nor a replacement" never fires: a thread about to
+    swap `IDLE` back (`f5`) finds its own generation or an envelope -/
+theorem C13_confirm_assert {st : State} (h : Reachable st) (hf : st.sh.fault = none) (t n g cand : Nat)
+    (hlp : (st.th t).op.lp? = some (.f5 g cand)) (hn : (st.th t).loc.node = some n) :
+    (st.sh.nodes n).control = .gen g ∨ ∃ j, (st.sh.nodes n).control = .env j :=
+  (CtlInv.reachable h hf).inside t g n (by rw [OpSt.win_lp, hlp]; rfl) hn
+
+/-- a control word that is not idle always belongs to the thread inside its window on that node -/
+theorem C13_control_owner {st : State} (h : Reachable st) (hf : st.sh.fault = none) (n : Nat)
+    (hne : (st.sh.nodes n).control ≠ .idle) :
+    ∃ t g, (st.th t).loc.node = some n ∧ (st.th t).op.win = some g ∧
+      ((st.sh.nodes n).control = .gen g ∨ ∃ j, (st.sh.nodes n).control = .env j) :=
+  (CtlInv.reachable h hf).owner n hne
+
 /-!
-Not proved yet (global protocol invariants of the helping path): the `debug_assert`s on `control`
-(`Left control in wrong state`, own control idle in `help`, the tag of a replacement) and on the
-slots being `NONE` when claimed.  No hang: reads are bounded (C08); writers: C09.  The harness runs
-every execution with debug assertions on and `catch_unwind` around each operation; the wrap is
-reached by presetting the counter (`wrap` family and the two D1 scenarios in the corpus).
+Not proved yet: the assertions on the *slots* being `NONE` when claimed (`fast::get_debt`,
+`helping::confirm`: need the slot-ownership invariant) and `envelope holds NONE`.  No hang: reads are
+bounded (C08); writers: C09.  The harness runs every execution with debug assertions on and
+`catch_unwind` around each operation; the wrap is reached by presetting the counter (`wrap` family
+and the two D1 scenarios in the corpus).
 -/
 
 example : (State.initial {} (fun _ => [])).sh.fault = none := rfl
